@@ -344,8 +344,8 @@ Proof.
   - destruct v; try discriminate. destruct (decode_hex_str s 32); inversion H. cbn. now rewrite app_nil_r.
   - destruct v; try discriminate. destruct (decode_hex_str s 16); inversion H. cbn. now rewrite app_nil_r.
   - destruct v; try discriminate. destruct (decode_hex_str s 16); inversion H. cbn. now rewrite app_nil_r.
-  - destruct (string_or_int64 v); inversion H. cbn. now rewrite app_nil_r.
-  - destruct (string_or_int64 v); inversion H. cbn. now rewrite app_nil_r.
+  - destruct (string_or_int64 v) as [x|]; [|discriminate]. destruct (us_to_ns fixed x); inversion H. cbn. now rewrite app_nil_r.
+  - destruct (string_or_int64 v) as [x|]; [|discriminate]. destruct (us_to_ns fixed x); inversion H. cbn. now rewrite app_nil_r.
   - destruct v; try discriminate. inversion H. reflexivity.
   - destruct v; try discriminate. cbn [parse_endpoint] in H.
     destruct (endpoint_fields "local_endpoint_" l "" (z_kv st)) as [[s' kv']|] eqn:E; [|discriminate].
@@ -388,14 +388,14 @@ Section REG.
 End REG.
 
 Ltac field_cases H :=
-  cbn [z_field] in H; unfold option_map, parse_endpoint in H;
+  cbn [z_field] in H; unfold us_to_ns in H; cbn [fixed q_time_wrap] in H; unfold option_map, parse_endpoint in H;
   repeat match type of H with
          | context [match ?x with _ => _ end] => destruct x; try discriminate H
          end;
   inversion H; reflexivity.
 
 Ltac field_set H :=
-  cbn [z_field] in H; unfold option_map, hex_field, time_field in *;
+  cbn [z_field] in H; unfold us_to_ns in H; cbn [fixed q_time_wrap] in H; unfold option_map, hex_field, time_field in *;
   repeat match type of H with
          | context [match ?x with _ => _ end] => destruct x; try discriminate H
          end;
@@ -591,6 +591,83 @@ Proof.
   - cbn. rewrite Rpl. split; [reflexivity|]. split; [reflexivity|]. split; [reflexivity|]. now rewrite Hkv, Rkv, Rsvc.
 Qed.
 
+(* ---- an accepted span object denotes a span: every member was accepted by its own field decoder *)
+Lemma z_fields_each fs : forall st st', z_fields fixed st fs = Some st' ->
+  forall k v, In (k, v) fs -> exists s1 s2, z_field fixed s1 (zkey_of k) v = Some s2.
+Proof.
+  induction fs as [|[k0 v0] fs IH]; intros st st' H k v Hin; [contradiction|]. cbn [z_fields] in H.
+  destruct (z_field fixed st (zkey_of k0) v0) as [st1|] eqn:E; [|discriminate].
+  destruct Hin as [Heq|Hin]; [inversion Heq; subst; eauto|]. apply (IH _ _ H _ _ Hin).
+Qed.
+
+Lemma jget_in k (fs : list (string * jv)) v : jget k fs = Some v -> In (k, v) fs.
+Proof.
+  induction fs as [|[k' v'] fs IH]; cbn [jget]; [discriminate|].
+  destruct (String.eqb_spec k k') as [<-|Hne]; intros H; [inversion H; left; reflexivity|right; apply IH, H].
+Qed.
+
+Lemma endpoint_fields_str prefix ep : forall svc kv r, endpoint_fields prefix ep svc kv = Some r ->
+  match jget "serviceName" ep with None => True | Some (JStr _) => True | Some _ => False end.
+Proof.
+  induction ep as [|[k v] ep IH]; intros svc kv r H; cbn [endpoint_fields jget] in *; [exact I|].
+  rewrite String.eqb_sym. destruct (String.eqb k "serviceName").
+  - destruct v; try discriminate H. exact I.
+  - apply (IH _ _ _ H).
+Qed.
+
+Lemma accepted_ep_ok name K prefix fs st st' :
+  zkey_of name = K -> (K = KLocal /\ prefix = "local_endpoint_" \/ K = KRemote /\ prefix = "remote_endpoint_") ->
+  z_fields fixed st fs = Some st' -> ep_ok name fs = true.
+Proof.
+  intros HK Hcase Hz. unfold ep_ok. destruct (jget name fs) as [v|] eqn:Ej; [|reflexivity].
+  destruct (z_fields_each _ _ _ Hz _ _ (jget_in _ _ _ Ej)) as [s1 [s2 Hf]]. rewrite HK in Hf.
+  destruct Hcase as [[-> ->]|[-> ->]]; cbn [z_field] in Hf; unfold parse_endpoint in Hf;
+    (destruct v as [| | | | |ep|]; try discriminate Hf;
+     destruct (endpoint_fields _ ep "" (z_kv s1)) as [r|] eqn:Ee; [|discriminate Hf];
+     pose proof (endpoint_fields_str _ _ _ _ _ Ee) as Hs;
+     destruct (jget "serviceName" ep) as [[| | | | | |]|]; try reflexivity; contradiction).
+Qed.
+
+Lemma accepted_span_denotes i e sr st' :
+  decode_span fixed (set_payload z_init (PRef i)) e = Some (sr, st') -> z_wellformed e = true -> zipkin_pushed e <> None.
+Proof.
+  unfold decode_span, zipkin_pushed. destruct e as [| | | | |fs|]; try discriminate.
+  destruct (z_fields fixed (set_payload z_init (PRef i)) fs) as [st1|] eqn:Ez; [|discriminate].
+  intros Hd Hwf. cbn [z_wellformed] in Hwf.
+  apply andb_prop in Hwf. destruct Hwf as [Hwf HR]. apply andb_prop in Hwf. destruct Hwf as [Hnd HL].
+  pose proof (reg_tid _ _ _ Hnd Ez) as Rt. pose proof (reg_sid _ _ _ Hnd Ez) as Rs.
+  pose proof (reg_parent _ _ _ Hnd Ez) as Rp. pose proof (reg_ts _ _ _ Hnd Ez) as Rts.
+  pose proof (reg_dur _ _ _ Hnd Ez) as Rd. pose proof (reg_name _ _ _ Hnd Ez) as Rn.
+  cbn [set_payload z_init z_tid z_sid z_parent z_ts z_dur z_name] in *.
+  unfold option_map in Hd.
+  destruct (on_span 1 (z_tid st1) (z_sid st1) (z_ts st1) (z_dur st1) (z_parent st1) (z_name st1) (z_svc st1) (z_payload st1)
+                    (z_kv st1 ++ [(k_service, z_svc st1)])%list) as [[row tags]|] eqn:Eo; [|discriminate].
+  apply on_span_some in Eo. destruct Eo as [Hwt [Hws _]].
+  destruct (jget "traceId" fs) as [t|]; [|rewrite Rt in Hwt; discriminate Hwt].
+  destruct (jget "id" fs) as [i0|]; [|rewrite Rs in Hws; discriminate Hws].
+  rewrite Rt, Rs. unfold opt_field.
+  assert (Hpar : match jget "parentId" fs with Some v => hex_field 16 v | None => Some "" end = Some (z_parent st1)).
+  { destruct (jget "parentId" fs); [exact Rp|now rewrite Rp]. }
+  assert (Hts : match jget "timestamp" fs with Some v => time_field v | None => Some 0 end = Some (z_ts st1)).
+  { destruct (jget "timestamp" fs); [exact Rts|now rewrite Rts]. }
+  assert (Hdur : match jget "duration" fs with Some v => time_field v | None => Some 0 end = Some (z_dur st1)).
+  { destruct (jget "duration" fs); [exact Rd|now rewrite Rd]. }
+  rewrite Hpar, Hts, Hdur.
+  assert (Hnm : exists n, match jget "name" fs with
+                          | Some v => match v with JStr s => Some (Some s) | _ => None end
+                          | None => Some None end = Some n).
+  { destruct (jget "name" fs) as [v|]; [|eauto]. unfold name_val in Rn. destruct v; try discriminate Rn. eauto. }
+  destruct Hnm as [n ->].
+  rewrite (accepted_ep_ok "localEndpoint" KLocal "local_endpoint_" fs _ _ eq_refl (or_introl (conj eq_refl eq_refl)) Ez).
+  rewrite (accepted_ep_ok "remoteEndpoint" KRemote "remote_endpoint_" fs _ _ eq_refl (or_intror (conj eq_refl eq_refl)) Ez).
+  assert (Htags : match jget "tags" fs with None => true | Some (JObj _) => true | Some _ => false end = true).
+  { destruct (jget "tags" fs) as [v|] eqn:Ej; [|reflexivity].
+    destruct (z_fields_each _ _ _ Ez _ _ (jget_in _ _ _ Ej)) as [s1 [s2 Hf]].
+    change (zkey_of "tags") with KTags in Hf. cbn [z_field] in Hf. destruct v; try discriminate Hf. reflexivity. }
+  rewrite Htags. cbn [andb]. discriminate.
+Qed.
+
+
 (* ---- framing: every element is decoded from a fresh state, whatever the framing *)
 Lemma zipkin_from_fixed nd es : forall i st,
   zipkin_from fixed nd i st es =
@@ -635,6 +712,27 @@ Proof.
 Qed.
 
 (* ================================================================== the three clauses for every request *)
+Lemma accepted_denotes_from nd es : forall i st rows,
+  zipkin_from fixed nd i st es = Some rows -> forallb z_wellformed es = true -> mapM zipkin_pushed es <> None.
+Proof.
+  induction es as [|e es IH]; intros i st rows Hd Hwf; [discriminate|].
+  cbn [zipkin_from] in Hd. replace (nd && q_nd_stateful fixed) with false in Hd by (cbn; now rewrite andb_false_r).
+  destruct (decode_span fixed (set_payload z_init (PRef i)) e) as [[sr st']|] eqn:Ed; [|discriminate].
+  destruct (zipkin_from fixed nd (i + 1) st' es) as [rs|] eqn:Er; [|discriminate].
+  cbn [forallb] in Hwf. apply andb_prop in Hwf. destruct Hwf as [Hwe Hwf].
+  cbn [mapM]. pose proof (accepted_span_denotes _ _ _ _ Ed Hwe) as Hden.
+  destruct (zipkin_pushed e) as [p|]; [|congruence].
+  pose proof (IH _ _ _ Er Hwf) as Hrest. destruct (mapM zipkin_pushed es); [discriminate|congruence].
+Qed.
+
+(* a Zipkin request without repeated member names that is accepted denotes spans: nothing is stored for a member that is
+   not a value of its field (a number outside int64 microseconds or nanoseconds, a fraction, a malformed id ...) *)
+Lemma accepted_denotes_l nd es rows :
+  decode fixed (InZipkin nd es) = Some rows -> forallb z_wellformed es = true -> pushed_of (InZipkin nd es) <> None.
+Proof.
+  cbn [decode pushed_of]. unfold zipkin_decode. intros Hd Hwf. rewrite Hwf. apply (accepted_denotes_from nd es _ _ _ Hd Hwf).
+Qed.
+
 Lemma rows_of_pushed inp rows ps :
   decode fixed inp = Some rows -> pushed_of inp = Some ps -> Forall2 span_rows_of ps rows.
 Proof.
@@ -982,22 +1080,32 @@ Qed.
 
 (* the behaviour before the four repairs violates the property on these very requests *)
 Example legacy_list_attrs_dropped :
-  spec_ok (model_case {| q_list_drop := true; q_remote_inverted := false; q_nd_stateful := false; q_peer_first := false; q_parent_payload := false |} ex_otlp) = false.
+  spec_ok (model_case {| q_list_drop := true; q_remote_inverted := false; q_nd_stateful := false; q_peer_first := false; q_parent_payload := false; q_time_wrap := false |} ex_otlp) = false.
 Proof. vm_compute. reflexivity. Qed.
 Example legacy_peer_service_rewrites :
-  spec_ok (model_case {| q_list_drop := false; q_remote_inverted := false; q_nd_stateful := false; q_peer_first := true; q_parent_payload := false |} ex_otlp) = false.
+  spec_ok (model_case {| q_list_drop := false; q_remote_inverted := false; q_nd_stateful := false; q_peer_first := true; q_parent_payload := false; q_time_wrap := false |} ex_otlp) = false.
 Proof. vm_compute. reflexivity. Qed.
 Example legacy_remote_overrides_local :
-  spec_ok (model_case {| q_list_drop := false; q_remote_inverted := true; q_nd_stateful := false; q_peer_first := false; q_parent_payload := false |} (ex_zipkin false)) = false.
+  spec_ok (model_case {| q_list_drop := false; q_remote_inverted := true; q_nd_stateful := false; q_peer_first := false; q_parent_payload := false; q_time_wrap := false |} (ex_zipkin false)) = false.
 Proof. vm_compute. reflexivity. Qed.
 Example legacy_short_parent_lost :
-  spec_ok (model_case {| q_list_drop := false; q_remote_inverted := false; q_nd_stateful := false; q_peer_first := false; q_parent_payload := true |}
+  spec_ok (model_case {| q_list_drop := false; q_remote_inverted := false; q_nd_stateful := false; q_peer_first := false; q_parent_payload := true; q_time_wrap := false |}
                       (InZipkin false [short_parent_span])) = false
   /\ spec_ok (model_case fixed (InZipkin false [short_parent_span])) = true.
 Proof. vm_compute. split; reflexivity. Qed.
+(* microseconds * 1000 beyond int64: the write path before the repair stored the wrapped-around product (here a span of
+   the year 2262 with a NEGATIVE start time); now the request is refused *)
+Definition overflow_span : jv :=
+  JObj [("traceId", JStr "0af7651916cd43dd8448eb211c80319c"); ("id", JStr "b7ad6b7169203331");
+        ("name", JStr "op"); ("timestamp", JInt 9223372036854776); ("duration", JInt 5)].
+Example legacy_time_wraps :
+  option_map (map (fun sr => t_ts (fst sr))) (decode (with_quirk 5) (InZipkin false [overflow_span])) = Some [-9223372036854775616]
+  /\ spec_ok (model_case (with_quirk 5) (InZipkin false [overflow_span])) = false
+  /\ decode fixed (InZipkin false [overflow_span]) = None.
+Proof. vm_compute. repeat split. Qed.
 Example legacy_ndjson_state :
-  spec_ok (model_case {| q_list_drop := false; q_remote_inverted := false; q_nd_stateful := true; q_peer_first := false; q_parent_payload := false |} (ex_zipkin true)) = false
-  /\ spec_ok (model_case {| q_list_drop := false; q_remote_inverted := false; q_nd_stateful := true; q_peer_first := false; q_parent_payload := false |} (ex_zipkin false)) = true.
+  spec_ok (model_case {| q_list_drop := false; q_remote_inverted := false; q_nd_stateful := true; q_peer_first := false; q_parent_payload := false; q_time_wrap := false |} (ex_zipkin true)) = false
+  /\ spec_ok (model_case {| q_list_drop := false; q_remote_inverted := false; q_nd_stateful := true; q_peer_first := false; q_parent_payload := false; q_time_wrap := false |} (ex_zipkin false)) = true.
 Proof. vm_compute. split; reflexivity. Qed.
 
 (* ================================================================== the check's oracle accepts the model's own output
@@ -1155,7 +1263,10 @@ Theorem model_meets_spec_l : forall inp, in_range inp -> spec_ok (model_case fix
 Proof.
   intros inp Hr. unfold model_case. destruct (decode fixed inp) as [rows|] eqn:Ed; [|reflexivity].
   unfold spec_ok. cbn [c_err c_in c_rows c_tags c_read].
-  destruct (pushed_of inp) as [ps|] eqn:Ep; [|reflexivity].
+  destruct (pushed_of inp) as [ps|] eqn:Ep.
+  2: { destruct inp as [b|nd es]; [reflexivity|]. cbn [must_reject].
+       destruct (forallb z_wellformed es) eqn:Hwf; [|reflexivity].
+       exfalso. apply (accepted_denotes_l nd es rows Ed Hwf Ep). }
   destruct (forallb widths_ok ps); [|reflexivity].
   destruct inp as [b|nd es]; cbn [decode in_elems in_range] in *.
   - cbn [pushed_of] in Ep. destruct (forallb r_has_res b) eqn:Hres; [|discriminate].
